@@ -298,7 +298,7 @@ func (c *Ctx) errorFate(fd *ast.FuncDecl, s errSite) (bool, string) {
 		kind := c.errCheckKind(s.ifStmt.Cond, s.errObj)
 		switch kind {
 		case "nonnil", "stop":
-			return c.blockReturnsErr(s.ifStmt.Body, s.errObj)
+			return c.branchPropagates(fd, s.ifStmt.Body, s.errObj)
 		case "nil":
 			return true, ""
 		}
@@ -313,7 +313,7 @@ func (c *Ctx) errorFate(fd *ast.FuncDecl, s errSite) (bool, string) {
 			kind := c.errCheckKind(nx.Cond, s.errObj)
 			switch kind {
 			case "nonnil", "stop":
-				return c.blockReturnsErr(nx.Body, s.errObj)
+				return c.branchPropagates(fd, nx.Body, s.errObj)
 			case "nil":
 				return true, ""
 			}
@@ -329,4 +329,44 @@ func (c *Ctx) errorFate(fd *ast.FuncDecl, s errSite) (bool, string) {
 		return false, "the error is not tested by the statement that follows the call (it may be overwritten first)"
 	}
 	return false, "unclassified"
+}
+
+// branchPropagates: the error branch returns the error (blockReturnsErr), or parks it in another error variable
+// that a later statement of the function tests and returns.
+func (c *Ctx) branchPropagates(fd *ast.FuncDecl, b *ast.BlockStmt, errObj types.Object) (bool, string) {
+	ok, why := c.blockReturnsErr(b, errObj)
+	if ok {
+		return true, ""
+	}
+	var parked types.Object
+	for _, st := range b.List {
+		as, isA := st.(*ast.AssignStmt)
+		if !isA || len(as.Lhs) != 1 || len(as.Rhs) != 1 {
+			continue
+		}
+		lid, okL := unparen(as.Lhs[0]).(*ast.Ident)
+		rid, okR := unparen(as.Rhs[0]).(*ast.Ident)
+		if okL && okR && c.objOf(rid) == errObj && isErrorType(c.typeOf(lid)) && c.objOf(lid) != errObj {
+			parked = c.objOf(lid)
+		}
+	}
+	if parked == nil {
+		return false, why
+	}
+	found, fwhy := false, "the error is parked in "+parked.Name()+" but no later statement tests and returns it"
+	ast.Inspect(fd.Body, func(n ast.Node) bool {
+		ifs, isIf := n.(*ast.IfStmt)
+		if !isIf || ifs.Pos() < b.End() {
+			return true
+		}
+		if k := c.errCheckKind(ifs.Cond, parked); k == "nonnil" || k == "stop" {
+			if good, w := c.blockReturnsErr(ifs.Body, parked); good {
+				found = true
+			} else {
+				fwhy = w
+			}
+		}
+		return true
+	})
+	return found, fwhy
 }
